@@ -127,6 +127,40 @@ def insertSorted (x : Nat) : List Nat → List Nat
 
 def sortNat (l : List Nat) : List Nat := l.foldr insertSorted []
 
+/-- The revisit loop of `_reduce` over the recursive call `dr` (`_do_reductions` with
+`update_parent = lid`): for every head to revisit, every reduction of its cell. -/
+def revisitFold (T : Table) (dr : GState → Nat → Nat → Option Nat → GState) (term lid : Nat)
+    (toRevisit : List Nat) (s : GState) : GState :=
+  toRevisit.foldl (fun acc rs =>
+    match acc.headActive rs with
+    | none => acc
+    | some rh =>
+      (T.actions rs term).foldl (fun acc2 a =>
+        match a with
+        | .reduce p => dr acc2 rh p (some lid)
+        | _ => acc2) acc) s
+
+/-- The `for parent in …` loop of `_do_reductions` over the recursive call `rd` (`_reduce`):
+`last_parent` and `traversed` persist across iterations; a frame is pushed while the path is
+shorter than the right-hand side, else the reduction is performed if the path counts. -/
+def parentsFold (rd : GState → Nat → List Nat → Nat → Nat → GState) (fr : Frame) (len : Nat)
+    (viaUpd : Bool) (plist : List Nat) (init : GState × List Frame × Option Nat × Bool) :
+    GState × List Frame × Option Nat × Bool :=
+  plist.foldl
+    (fun (acc : GState × List Frame × Option Nat × Bool) par =>
+      let (sa, stk, lastP, trav) := acc
+      let newResults := par :: fr.results
+      let lastP' := match lastP with | none => some par | some x => some x
+      let trav' := trav || viaUpd
+      if len != 0 then
+        (sa, { node := (sa.link par).root, results := newResults, length := len, lastP := lastP',
+               trav := trav' } :: stk, lastP', trav')
+      else if trav' then
+        (rd sa (sa.link par).root newResults (sa.link par).s (sa.link (lastP'.getD par)).e,
+          stk, lastP', trav')
+      else (sa, stk, lastP', trav'))
+    init
+
 mutual
   /-- `_reduce`. -/
   def reduce (g : Grammar) (T : Table) : Nat → GState → (head root pid : Nat) → (kids : List Nat) →
@@ -153,15 +187,7 @@ mutual
                   (fun x => !pending.contains x)).eraseDups
                 let s1 := if decide (2 ≤ toRevisit.length) && toRevisit.any (fun x => decide (8 ≤ x))
                   then { s1 with orderSens := true } else s1
-                let term := s1.tokTerm head
-                toRevisit.foldl (fun acc rs =>
-                  match acc.headActive rs with
-                  | none => acc
-                  | some rh =>
-                    (T.actions rs term).foldl (fun acc2 a =>
-                      match a with
-                      | .reduce p => doReductions g T fuel acc2 rh p (some lid)
-                      | _ => acc2) acc) s1
+                revisitFold T (fun a rh p u => doReductions g T fuel a rh p u) (s1.tokTerm head) lid toRevisit s1
             else s1
           | none =>
             let h := s.node head
@@ -198,22 +224,9 @@ mutual
       let plist := match upd with
         | some u => if viaUpd then [u] else s0.parents fr.node
         | none => s0.parents fr.node
-      -- the for loop over the parents: `last_parent` and `traversed` persist across iterations
-      let (s1, stack, _, _) := plist.foldl
-        (fun (acc : GState × List Frame × Option Nat × Bool) par =>
-          let (sa, stk, lastP, trav) := acc
-          let newResults := par :: fr.results
-          let lastP' := match lastP with | none => some par | some x => some x
-          let trav' := trav || viaUpd
-          if len != 0 then
-            (sa, { node := (sa.link par).root, results := newResults, length := len, lastP := lastP',
-                   trav := trav' } :: stk, lastP', trav')
-          else if trav' then
-            (reduce g T fuel sa head (sa.link par).root pid newResults (sa.link par).s
-              (sa.link (lastP'.getD par)).e, stk, lastP', trav')
-          else (sa, stk, lastP', trav'))
-        (s0, rest, fr.lastP, fr.trav)
-      paths g T fuel s1 head pid upd stack
+      let r := parentsFold (fun sa root kids st en => reduce g T fuel sa head root pid kids st en) fr len viaUpd
+        plist (s0, rest, fr.lastP, fr.trav)
+      paths g T fuel r.1 head pid upd r.2.1
 end
 
 /-- `_actor`. -/
